@@ -142,6 +142,10 @@ def obs_composites(h, ex=None):
                "rt": rt, "ref": ref}
         if isinstance(k.relation_link, _L().MultiRelationLink):
             rec["multi"] = True
+        if ex is not None:
+            ent = ex.entry_of(k)
+            if ent is not None:
+                rec["ent"] = ent
         out.append(rec)
     return {"comps": out}
 
